@@ -208,12 +208,16 @@ func (s jsonSet) patch(
 	if ok && len(rest) > 0 {
 		// Recurse into a specific object.
 		lookingFor := jsonObject(pathSetKeys).ident(metadata)
-		for _, v := range s {
-			if o, ok := v.(jsonObject); ok {
-				id := o.pathIdent(jsonObject(pathSetKeys), metadata)
-				if id == lookingFor {
-					v.patch(append(pathBehind, n), rest, before, oldValues, newValues, after, strategy)
-					return s, nil
+		// An object with the key values of the path; failing that, one
+		// which lacks the keys that are null in the path.
+		for _, absentIsNull := range []bool{false, true} {
+			for _, v := range s {
+				if o, ok := v.(jsonObject); ok {
+					id := o.pathIdent(jsonObject(pathSetKeys), absentIsNull, metadata)
+					if id == lookingFor {
+						v.patch(append(pathBehind, n), rest, before, oldValues, newValues, after, strategy)
+						return s, nil
+					}
 				}
 			}
 		}
